@@ -37,7 +37,7 @@ TRUSTED_BASE = [
 ]
 
 
-class Timeout(Exception):
+class Timeout(BaseException):
     pass
 
 
@@ -47,7 +47,7 @@ def alarm(seconds):
     def handler(signum, frame):
         raise Timeout()
     old = signal.signal(signal.SIGALRM, handler)
-    signal.setitimer(signal.ITIMER_REAL, seconds)
+    signal.setitimer(signal.ITIMER_REAL, seconds, 0.25)   # keeps firing: the code under test may swallow one exception
     try:
         yield
     finally:
@@ -168,7 +168,7 @@ class Ctx:
         """ctx.check over many inputs; thorough tier fans out over worker processes (fork)."""
         inputs = list(inputs)
         if procs is None:
-            procs = 16 if (self.tier == "thorough" and len(inputs) >= 4000) else 1
+            procs = 16 if (self.tier == "thorough" and len(inputs) >= 2000) else (8 if len(inputs) >= 400 else 1)
         if procs <= 1:
             for inp in inputs:
                 if self.left() < 45:
@@ -397,6 +397,9 @@ def write_evidence(ctx, violations_n, extra=None):
 
 
 def setup_repo_import():
+    import warnings
+    warnings.filterwarnings("ignore", category=SyntaxWarning)
+    warnings.filterwarnings("ignore", category=DeprecationWarning)
     if REPO not in sys.path:
         sys.path.insert(0, REPO)
     os.environ[GUARD] = "1"
